@@ -96,6 +96,25 @@ def rule_channel(ctx):
     ctx.ob(R, "filtered values dropped", ok, "the buffer is touched only when the filter accepted the value" if ok else "buffer modification reachable: %s" % {k: sorted(v) for k, v in tab.items()}, send.loc())
     kids = [g for g in ctx.F.fns if g.parent is send]
     outer = [g for g in kids if any(c["q"].endswith("VecDeque::retain") for c in ctx.T(g).calls())]
+    if not outer:
+        # pruning written as an explicit loop (selection call + removal by position inside the send_modify closure):
+        # the per-element semantics are not decided for that form; the ingredients must still be there
+        fam = common.family(ctx, send, ("closure",))
+
+        def has_sel(g):
+            Tg = ctx.T(g)
+            for blk in g.blocks:
+                if blk["t"]["k"] == "call":
+                    ct = Tg.call_term(blk["t"])
+                    if any(y[0] == "field" and y[2] == "selection_function" for y in subterms(ct)):
+                        return True
+            return False
+        loopform = [g for g in fam if has_sel(g) and any(c["q"].endswith(("VecDeque::remove", "VecDeque::swap_remove_back", "VecDeque::drain")) for c in ctx.T(g).calls())
+                    and any(c["q"].endswith("VecDeque::push_back") for c in ctx.T(g).calls())]
+        if loopform:
+            ctx.note("C16.4: the pending queue is pruned by an explicit loop (no retain): Keep/DiscardOld/DiscardNew handling not decided for this form")
+            ctx.ob(R, "pruning form", True, "undecided shape (not reported): explicit loop over the pending values with the selection function, removal by position and push_back", loopform[0].loc())
+            return
     ctx.floor(R, "closure calling retain", len(outer), 1)
     if not outer:
         return
@@ -232,6 +251,38 @@ def cache_rule(ctx, R, handler, views_cache, qcs_cache, process):
                                or (cl_local is not None and Q.LocalFlow(f).derives_from_call_where(cl_local, from_views)))
             if okc:
                 ret_calls.append(c["bb"])
+    if not ret_calls and not any(c["q"].endswith("BTreeMap::retain") and chain(T.args_of(c)[0])[1][-1:] == [qcs_cache] for c in T.calls()):
+        # no retain at all: pruning written as "collect the stale keys, then remove them one by one". Accepted as an
+        # undecided form when the removal loop exists and its keys derive from the cache's own keys filtered against
+        # a set built from the views cache; which keys are stale is not decided for this form.
+        LFp = Q.LocalFlow(f)
+        cfgp = ctx.cfg(f)
+
+        def from_cache_keys(t):
+            if "decl" not in t["f"]:
+                return False
+            q = f.callee(t)[0].qname
+            return q.endswith(("BTreeMap::keys", "BTreeMap::iter", "BTreeMap::range")) and bool(t["args"]) and chain(T.operand(t["args"][0]))[1][-1:] == [qcs_cache]
+
+        def from_views_vals(t):
+            if "decl" not in t["f"]:
+                return False
+            q = f.callee(t)[0].qname
+            return q.endswith(("BTreeMap::values", "BTreeMap::iter", "BTreeMap::into_values")) and bool(t["args"]) and chain(T.operand(t["args"][0]))[1][-1:] == [views_cache]
+        loops = []
+        for c in T.calls():
+            if c["q"].endswith("BTreeMap::remove") and chain(T.args_of(c)[0])[1][-1:] == [qcs_cache] and c["bb"] in cfgp.reach_from([z for _, z in cfgp.succ[c["bb"]]]):
+                kl = Q.LocalFlow._local_op(c["t"]["args"][1]) if len(c["t"]["args"]) > 1 else None
+                if kl is not None and LFp.derives_from_call_where(kl, from_cache_keys) and LFp.derives_from_call_where(kl, from_views_vals):
+                    loops.append(c["bb"])
+        if loops:
+            ctx.note("C16.5 %s: %s is pruned by an explicit removal loop (no retain): the set of removed keys is not decided for this form" % (handler, qcs_cache))
+            ctx.ob(R, "%s pruning present" % handler, True, "undecided shape (not reported): stale keys of %s, selected against a set built from %s.values(), are removed in a loop" % (qcs_cache, views_cache), f.loc())
+            rem = [c["bb"] for c in T.calls() if c["q"].endswith("BTreeMap::remove") and chain(T.args_of(c)[0])[1][-1:] == [qcs_cache] and c["bb"] not in loops]
+            procs = [c["bb"] for c in T.calls() if (c["rq"] or c["q"]) == SM + "::" + process]
+            okr = bool(rem) and bool(procs) and all(cfg.must_pass_blocks(p, set(rem)) for p in procs)
+            ctx.ob(R, "%s formed certificate removed" % handler, okr, "the assembled certificate is removed from %s before %s" % (qcs_cache, process) if okr else "the assembled certificate is processed without being removed from the cache", f.loc())
+            return
     ctx.ob(R, "%s pruning present" % handler, bool(ret_calls), "%s.retain(|view, _| active_views.contains(view)) with active_views = %s.values()" % (qcs_cache, views_cache) if ret_calls else
            "%s no longer prunes %s to the views that are some validator's latest vote (retain over %s.values() not found): stale partial certificates accumulate" % (handler, qcs_cache, views_cache), f.loc())
     for ib in ins_views + ins_qcs:
